@@ -111,34 +111,19 @@ example : typepromote true (.enum 7 .uint) (some 31) = .basic .int := by decide
 
 /-! ## 3. Usual arithmetic conversions (6.3.1.8) -/
 
-/-- full-strength statement: for all operand types and widths `typecommonreal` returns a type that
-6.3.1.8 allows -/
-def commonreal_full : Prop :=
-  ∀ (sc : Bool) (t₁ : ATy) (w₁ : Option Nat) (t₂ : ATy) (w₂ : Option Nat),
-    t₁.wf = true → t₂.wf = true → validWidth t₁ w₁ → validWidth t₂ w₂ →
-    ∃ r, typecommonreal sc t₁ w₁ t₂ w₂ = some r ∧ usualArith sc t₁ w₁ t₂ w₂ r = true
+/-- for all operand type objects (enumerated types over any base included) and all bit-field
+widths, `typecommonreal` returns the common real type of 6.3.1.8 — stated by ranks and by "can
+represent all values" on ranges — and never ends in `fatal`.  (Before fix `6d47956` this failed for
+`enum E : long long` with `unsigned long`: "internal error; could not find common real type".) -/
+theorem commonreal_correct (sc : Bool) (t₁ : ATy) (w₁ : Option Nat) (t₂ : ATy) (w₂ : Option Nat)
+    (f₁ : t₁.wf = true) (f₂ : t₂.wf = true) (hw₁ : validWidth t₁ w₁) (hw₂ : validWidth t₂ w₂) :
+    typecommonreal sc t₁ w₁ t₂ w₂ = some (commonReal sc t₁ w₁ t₂ w₂) :=
+  commonreal_ok sc t₁ t₂ w₁ w₂ f₁ f₂ hw₁ hw₂
 
-/-- `enum E : long long {…} e; unsigned long u; e + u` — cproc dies with "internal error; could not
-find common real type" (the code compares `t2 == &typellong` by address). Needs a C23 fixed
-underlying type: a C11 enumeration never gets `long long` (`enumBase_c11`). -/
-theorem commonreal_counterexample : ¬ commonreal_full := by
-  intro h
-  obtain ⟨r, hr, _⟩ := h false (.enum 0 .llong) none (.basic .ulong) none rfl rfl trivial trivial
-  rw [commonreal_counter] at hr
-  cases hr
-
-theorem commonreal_partial (sc : Bool) (t₁ : ATy) (w₁ : Option Nat) (t₂ : ATy) (w₂ : Option Nat)
-    (f₁ : t₁.wf = true) (f₂ : t₂.wf = true) (hw₁ : validWidth t₁ w₁) (hw₂ : validWidth t₂ w₂)
-    (n₁ : NoLLEnum t₁) (n₂ : NoLLEnum t₂) :
-    ∃ r, typecommonreal sc t₁ w₁ t₂ w₂ = some r ∧ usualArith sc t₁ w₁ t₂ w₂ r = true := by
-  have h := commonreal_ok sc t₁ t₂ w₁ w₂ f₁ f₂ hw₁ hw₂ n₁ n₂
-  cases hc : typecommonreal sc t₁ w₁ t₂ w₂ with
-  | none => simp [hc, okOpt] at h
-  | some r => exact ⟨r, rfl, by simpa [hc, okOpt] using h⟩
-
-example : NoLLEnum (.enum 3 .long) ∧ NoLLEnum (.basic .llong) := ⟨trivial, trivial⟩
+example : validWidth (.basic .uint) (some 31) := by decide
 example : typecommonreal true (.basic .uint) (some 31) (.basic .int) none = some (.basic .int) := by decide
 example : typecommonreal true (.basic .long) none (.basic .uint) none = some (.basic .long) := by decide
+example : typecommonreal false (.enum 0 .llong) none (.basic .ulong) none = some (.basic .ullong) := by decide
 
 /-! ## 4. `typehasint` and literal typing (6.4.4.1p5) -/
 
@@ -230,91 +215,44 @@ theorem decay_correct (e : Operand) : (decay e).ty = decayTy e.ty e.qual := by
 
 /-! ## 6. Operator result types (6.5.x) -/
 
-/-- operands without the `NoLLEnum` restriction -/
-def OperandWf (o : Operand) : Prop :=
-  match o.ty with
-  | .arith a => a.wf = true ∧ validWidth a o.width
-  | _ => True
-
-def binop_type_full : Prop :=
-  ∀ (sc : Bool) (op : BinOp) (l r : Operand) (t : Ty), OperandWf l → OperandWf r →
-    binopOk sc op l r t = true → ∃ t', binopType sc op l r = some t' ∧ binopOk sc op l r t' = true
-
-/-- same defect as `commonreal_counterexample`, seen through an operator: `e == u` -/
-theorem binop_type_counterexample : ¬ binop_type_full := by
-  intro h
-  obtain ⟨t', ht, _⟩ := h false .eql { ty := .arith (.enum 0 .llong) } { ty := .arith (.basic .ulong) } Ty.int
-    ⟨rfl, trivial⟩ ⟨rfl, trivial⟩ (by decide)
-  have : binopType false .eql { ty := .arith (.enum 0 .llong) } { ty := .arith (.basic .ulong) } = none := by decide
-  rw [this] at ht
-  cases ht
-
-/-- whenever C11 gives `l op r` a type (`binopOk … t` for some `t`), `mkbinaryexpr` accepts the
-expression and gives it a type C11 allows — for every operator, all arithmetic / pointer /
-array-decayed / function / void / struct operand types, bit-field operands included -/
-theorem binop_type_partial (sc : Bool) (op : BinOp) (l r : Operand) (t : Ty)
+/-- whenever C11 gives `l op r` the type `t`, `mkbinaryexpr` accepts the expression and gives it
+exactly that type — for every operator, all arithmetic / pointer / array-decayed / function / void /
+struct operand types, bit-field operands included (`OperandOk`: enum bases are integer types and
+bit-field widths are legal) -/
+theorem binop_type_correct (sc : Bool) (op : BinOp) (l r : Operand) (t : Ty)
     (ol : OperandOk l) (or' : OperandOk r) (h : binopOk sc op l r t = true) :
-    ∃ t', binopType sc op l r = some t' ∧ binopOk sc op l r t' = true := by
+    binopType sc op l r = some t := by
   have hk := binop_ok sc op l r ol or' t h
   cases hb : binopType sc op l r with
   | none => simp [hb, okOptT] at hk
-  | some t' => exact ⟨t', rfl, by simpa [hb, okOptT] using hk⟩
+  | some t' =>
+    have : binopOk sc op l r t' = true := by simpa [hb, okOptT] using hk
+    rw [binopOk_unique sc op l r t t' h this]
 
-example : OperandOk { ty := .arith (.basic .ushort), width := some 7 } := ⟨rfl, by decide, trivial⟩
+/-- the Spec predicate determines the type -/
+theorem binop_type_unique (sc : Bool) (op : BinOp) (l r : Operand) (t t' : Ty)
+    (h : binopOk sc op l r t = true) (h' : binopOk sc op l r t' = true) : t = t' :=
+  binopOk_unique sc op l r t t' h h'
+
+example : OperandOk { ty := .arith (.basic .ushort), width := some 7 } := ⟨rfl, by decide⟩
 example : binopType true .shl { ty := .arith (.basic .ushort) } { ty := .arith (.basic .ulong) } = some Ty.int := by
   decide
 example : binopType true .sub { ty := .ptr {} Ty.int } { ty := .ptr { c := true } Ty.int } = some Ty.long := by
   decide
 
-/-- the only freedom `binopOk` leaves is the one of 6.3.1.8 (two different types of the same rank
-and signedness): comparison, logical, shift and pointer results are unique -/
-theorem binop_type_unique_nonarith (sc : Bool) (op : BinOp) (l r : Operand) (t t' : Ty)
-    (h : binopOk sc op l r t = true) (h' : binopOk sc op l r t' = true)
-    (hn : arithOk sc l r t = false) (hn' : arithOk sc l r t' = false) : t = t' := by
-  cases op <;> simp only [binopOk, hn, hn', Bool.and_false, Bool.false_or, Bool.or_eq_true, Bool.and_eq_true,
-    beq_iff_eq] at h h' <;> first
-    | (rw [h.2, h'.2]; done)
-    | (rw [h.1, h'.1]; done)
-    | (cases h; done)
-    | skip
-  all_goals first
-    | (cases hl : l.ty <;> simp [hl] at h h' <;> rw [h.2, h'.2]; done)
-    | skip
-  -- add
-  · rcases h with h | h <;> rcases h' with h' | h' <;> (try (rw [h.2, h'.2]; done))
-    · have := h.1.1; have := h'.1.2
-      cases hl : l.ty <;> simp_all [ptrToCompleteObject, isIntegerT]
-    · have := h.1.2; have := h'.1.1
-      cases hl : l.ty <;> simp_all [ptrToCompleteObject, isIntegerT]
-  -- sub
-  · rcases h with h | h <;> rcases h' with h' | h' <;> (try (rw [h.2, h'.2]; done))
-    · cases hl : l.ty <;> cases hr : r.ty <;> simp_all [ptrToCompleteObject, isIntegerT]
-    · cases hl : l.ty <;> cases hr : r.ty <;> simp_all [ptrToCompleteObject, isIntegerT]
-    · cases hl : l.ty <;> cases hr : r.ty <;> simp_all [ptrToCompleteObject, isIntegerT]
-
-def cond_type_full : Prop :=
-  ∀ (sc : Bool) (c l r : Operand) (t : Ty), c.constval = none → OperandWf l → OperandWf r →
-    condOk sc l r t = true → ∃ t', condType sc c l r = some t' ∧ condOk sc l r t' = true
-
-theorem cond_type_counterexample : ¬ cond_type_full := by
-  intro h
-  obtain ⟨t', ht, _⟩ := h false { ty := Ty.int } { ty := .arith (.enum 0 .llong) } { ty := .arith (.basic .ulong) }
-    (.arith (.basic .ullong)) rfl ⟨rfl, trivial⟩ ⟨rfl, trivial⟩ (by decide)
-  have : condType false { ty := Ty.int } { ty := .arith (.enum 0 .llong) } { ty := .arith (.basic .ulong) } = none := by
-    decide
-  rw [this] at ht
-  cases ht
-
 /-- 6.5.15: both arithmetic (usual arithmetic conversions, also when both have the same narrow
 type), same struct/union, both void, pointer/null pointer constant, pointers to compatible types
-(qualifiers merged), pointer to object and pointer to void -/
-theorem cond_type_partial (sc : Bool) (c l r : Operand) (t : Ty) (hc : c.constval = none)
+(qualifiers merged), pointer to object and pointer to void: whenever C11 types `c ? l : r`,
+`condexpr` (non-constant condition) accepts it and gives it a type C11 allows -/
+theorem cond_type_correct (sc : Bool) (c l r : Operand) (t : Ty) (hc : c.constval = none)
     (ol : OperandOk l) (or' : OperandOk r) (h : condOk sc l r t = true) :
     ∃ t', condType sc c l r = some t' ∧ condOk sc l r t' = true := by
   have hk := cond_ok sc c l r hc ol or' t h
   cases hb : condType sc c l r with
   | none => simp [hb, okOptT] at hk
   | some t' => exact ⟨t', rfl, by simpa [hb, okOptT] using hk⟩
+
+example : OperandOk { ty := .arith (.enum 4 .llong) } := ⟨rfl, trivial⟩
 
 /-- the regression of defect #21: `c ? s : s` with `short s` has type `int` -/
 example : condType true { ty := Ty.int } { ty := .arith (.basic .short) } { ty := .arith (.basic .short) } = some Ty.int := by
@@ -349,7 +287,7 @@ theorem unary_arith_type (sc : Bool) (e : Operand) (a : ATy) (he : e.ty = .arith
     (unaryOp sc .plus e).map (·.ty) = some (.arith (intPromote sc a e.width)) ∧
     (unaryOp sc .minus e).map (·.ty) = some (.arith (intPromote sc a e.width)) := by
   simp only [OperandOk, he] at oe
-  have hp := typepromote_int sc a e.width oe.1 oe.2.1 hi
+  have hp := typepromote_int sc a e.width oe.1 oe.2 hi
   have i1 : e.ty.isInt = true := isInt_of_isIntegerT _ (by simpa [isIntegerT, he] using hi)
   have i1' : (Ty.arith a).isInt = true := he ▸ i1
   constructor <;>
@@ -371,26 +309,21 @@ theorem member_qualifiers (arrow : Bool) (e o : Operand) (mty : Ty) (mq : Qual) 
 
 /-! ## 7. Null pointer constants -/
 
-def cast_nullconst_full : Prop :=
-  ∀ (t : Ty) (e o : Operand), castType t e = some o → o.nullconst = castNullconst t e
-
-/-- `(const void *)0` is not a null pointer constant (6.3.2.3p3), cproc's `nullpointer()` only tests
-`base == &typevoid`: `int *p; c ? (const void *)0 : p` gets type `int *` instead of `const void *` -/
-theorem cast_nullconst_counterexample : ¬ cast_nullconst_full := by
-  intro h
-  have := h (.ptr { c := true } .void) { ty := Ty.int, nullconst := true } _ rfl
-  exact absurd this (by decide)
-
-theorem cast_nullconst_partial (t : Ty) (e o : Operand) (h : castType t e = some o)
-    (hwf : ∀ a, t = .arith a → a.wf = true)
-    (hq : ∀ q, t = .ptr q .void → q = Qual.none) : o.nullconst = castNullconst t e := by
+/-- a cast of a null pointer constant is one iff the target is an integer type or the unqualified
+`void *` (6.3.2.3p3).  (Before fix `8619181` `(const void *)0` was taken for one.) -/
+theorem cast_nullconst_correct (t : Ty) (e o : Operand) (h : castType t e = some o)
+    (hwf : ∀ a, t = .arith a → a.wf = true) : o.nullconst = castNullconst t e := by
   have e1 := isInt_eq_isIntegerT t hwf
   have e2 : t.isVoidPtr = (t == .ptr Qual.none .void) := by
     cases t <;> simp [Ty.isVoidPtr]
     rename_i q b
-    cases b <;> simp [Ty.isVoidPtr]
-    have := hq q rfl
-    subst this; rfl
+    cases b <;> simp [Ty.isVoidPtr, Qual.none]
+    by_cases hq : q = {}
+    · subst hq; rfl
+    · have h1 : (q == ({} : Qual)) = false := by simpa using hq
+      have h2 : (Ty.ptr q Ty.void == Ty.ptr {} Ty.void) = false := by
+        simp only [beq_eq_false_iff_ne, ne_eq, Ty.ptr.injEq, and_true]; exact hq
+      rw [h1, h2]
   unfold castType at h
   split at h
   · simp at h
@@ -398,6 +331,9 @@ theorem cast_nullconst_partial (t : Ty) (e o : Operand) (h : castType t e = some
     · simp at h
     · cases h
       simp only [castNullconst, e1, e2]
+
+example : (castType (.ptr { c := true } .void) { ty := Ty.int, nullconst := true }).map (·.nullconst) = some false := by
+  decide
 
 /-! ## 8. Enumerations (6.7.2.2) -/
 
@@ -435,7 +371,7 @@ theorem enum_base_represents (sc : Bool) (min max : Nat) (b : Basic) (hmin : min
     exact ⟨of_decide_eq_true r2.symm, of_decide_eq_true r1.symm⟩
 
 /-- a C11 enumeration (no fixed underlying type) never gets `long long`/`unsigned long long`:
-`long` has the same range and comes first — so `commonreal_partial` covers every C11 program -/
+`long` has the same range and comes first -/
 theorem enum_base_c11 (sc : Bool) (min max : Nat) (b : Basic) (h : enumBase sc min max = some b) :
     b = .uint ∨ b = .int ∨ b = .ulong ∨ b = .long := by
   unfold enumBase at h
